@@ -1,11 +1,12 @@
 #!/usr/bin/env python3
 """Confirm a sub-agent's seeded change in its own scratch worktree and file it under
 /verif/seeded/<id>/ : (1) suite passes with the change, (2) demo fails with it, (3) demo passes
-without it.  usage: tools_seed_verify.py C10 [/tmp/seed]"""
+without it.  usage: tools_seed_verify.py C10 [/tmp/seed [letters]]"""
 import json, os, re, shutil, subprocess, sys
 
 prop = sys.argv[1]
 root = sys.argv[2] if len(sys.argv) > 2 else "/tmp/seed"
+letters = sys.argv[3] if len(sys.argv) > 3 else "ab"     # round 2 seeds are filed as <id>-c / <id>-d
 wt = os.path.join(root, prop)
 outd = os.path.join(root, prop + "-out")
 meta = json.load(open(os.path.join(outd, "meta.json")))
@@ -23,7 +24,7 @@ def suite_ok(out):
 
 
 for i, ch in enumerate(meta["changes"]):
-    sid = "%s-%s" % (prop, "ab"[i] if i < 2 else str(i))
+    sid = "%s-%s" % (prop, letters[i] if i < len(letters) else str(i))
     patch = os.path.join(outd, ch["patch"])
     demo = os.path.join(outd, ch["demo"])
     demo_path = ch.get("demo_path", "tests/seed_demo_%d.rs" % (i + 1))
